@@ -6,8 +6,9 @@ documents.
 import harness
 from facts import norm, lit_value, call_name, short, subnodes
 from prov import Prov, has_field
-from templates import field_coverage
+from templates import field_coverage, global_state_holders, global_state_uses
 
+PR = "nitrogql_printer::"
 JSON_MOD = "nitrogql_printer::json_printer::"
 TRAIT = "nitrogql_printer::json_printer::to_json::JsonPrintable"
 
@@ -230,6 +231,20 @@ def r12b(P, R):
                     "JSON key `%s` of `%s` is not computed from %s.%s anywhere in its block" % (key, kind, src[0], src[1]),
                     loc=fn.loc())
     R.floor("R12-b", "key->field sources", n, 30)
+    # child nodes are printed as they are: the receiver of a nested print_json is an AST value reached by field projection /
+    # iteration (or a json_printer adapter around one), never the result of an AST helper that computes a different node
+    sites = 0
+    for p in json_scope(P):
+        f = P.fns[p]
+        pv = Prov(f)
+        for c in f.walk():
+            if c.get("k") == "MethodCall" and c.get("method") == "print_json":
+                sites += 1
+                through = sorted({x[1] for x in pv.data_atoms(c["recv"]) if x[0] == "call" and x[1] in P.fns and JSON_MOD not in x[1]})
+                R.check("R12-b", "child-direct:%s" % short(f.path), not through, "nested nodes are printed unchanged",
+                        "%s prints a nested node obtained through %s instead of the AST child itself: the emitted document differs from the "
+                        "source (e.g. list / non-null wrappers of a variable type are lost)" % (f.path, [short(t) for t in through]), loc=f.loc())
+    R.floor("R12-b", "nested print_json sites", sites, 25)
 
 
 def r12c(P, R):
@@ -329,6 +344,31 @@ def r12d(P, R):
             "print_fragment_runtime does not filter the fragment itself from the closure", loc=fr_rt.loc())
 
 
+def r12f(P, R):
+    """the runtime printers keep no state between documents"""
+    holders = global_state_holders(P)
+    R.floor("R12-f", "global state holders found in the workspace (detector control)", len(holders), 6)
+    entries = [P.fn(PR + "operation_js_printer::printers::print_operation_runtime"), P.fn(PR + "operation_js_printer::printers::print_fragment_runtime"),
+               P.fn(PR + "json_printer::print_to_json_string")]
+    scope = [P.fns[p] for p in P.reachable(entries) if not P.fns[p].derived]
+    ALLOWED = {"nitrogql_ast::current_file::CURRENT_FILE_OF_POS": "file index stamped into positions while parsing; not read by the runtime printers' output path"}
+    uses = global_state_uses(P, scope, holders)
+    bad = 0
+    for f, h, missing, key in uses:
+        if h in ALLOWED:
+            continue
+        bad += 1
+        if missing is None:
+            R.undecided("R12-f", "state:%s" % short(h), "%s uses global state %s without a keyed access; its effect on the output is not decided" % (f.path, h), loc=f.loc())
+        elif missing:
+            R.violated("R12-f", "state:%s" % short(h), "%s caches results in the thread-local/static %s keyed by %s only, but the cached value also depends on "
+                       "%s: the runtime document printed for one file depends on which documents were printed before it" % (f.path, h, key, missing), loc=f.loc())
+        else:
+            R.undecided("R12-f", "state:%s" % short(h), "%s caches in %s with a key covering all its inputs" % (f.path, h), loc=f.loc())
+    if not bad:
+        R.holds("R12-f", "stateless", "%d functions reachable from the runtime printers touch no global state holder (of %d in the workspace)" % (len(scope), len(holders)))
+
+
 def r12e(P, R):
     """lossless traversal: no early exit from the traversal loops, no filtering/reordering adaptor on AST data"""
     from templates import LOSSY_OR_REORDERING
@@ -365,7 +405,7 @@ def r12e(P, R):
                 "%s applies %s to the fragment closure (expected %d such adaptor)" % (f.path, lossy, allowed), loc=f.loc())
 
 
-RULES = [("R12-e", r12e), ("R12-a", r12a), ("R12-b", r12b), ("R12-c", r12c), ("R12-d", r12d)]
+RULES = [("R12-e", r12e), ("R12-f", r12f), ("R12-a", r12a), ("R12-b", r12b), ("R12-c", r12c), ("R12-d", r12d)]
 
 EXPLANATION = (
     "Static structural necessary conditions for C12 decided on the type-checked program: (R12-a) every "
